@@ -236,13 +236,33 @@ def _merge_rules(ck):
     p = undischarged(cfg, lambda nd: nd in appends, edge_ok=empty_edge, start=(L.id, "iter"), targets=[L.id])
     ck.ob("R5", "_do_merge_blocks:every-assignblk-kept", p is None, m.where(L.ast),
           "an assignment block of the parent can be skipped: %s" % (path_text(p) if p else ""))
+    # kept unchanged only where IRDst is known not to be in it - decided per path of the loop body (the loop variable may be rebound to
+    # the rebuilt block before one common append)
+    from sa import symval as _sv
+    n_kept = 0
+    for pth in _sv.paths(L.ast.body, limit=64):
+        for e in pth.effects:
+            if isinstance(e, ast.Call) and callee_attr(e) == "append" and e.args and norm(e.args[0]) == blk:
+                n_kept += 1
+                known_absent = any((norm(t) == "ircfg.IRDst in %s" % blk and b is False) or (norm(t) == "ircfg.IRDst not in %s" % blk and b is True)
+                                   for t, b in pth.conds)
+                ck.ob("R5", "_do_merge_blocks:kept-unchanged-only-without-IRDst", known_absent, m.where(L.ast),
+                      "an assignment block is kept unchanged on a path where it may still contain IRDst (path: %s)"
+                      % ", ".join("%s is %s" % (norm(t), b) for t, b in pth.conds))
+    ck.ob("R5", "_do_merge_blocks:keeps-untouched-blocks", n_kept >= 1, m.where(L.ast), "no path keeps an assignment block that does not hold IRDst")
+    res5 = None
     for nd in appends:
         a = nd.ast.value.args[0] if nd.ast.value.args else None
+        if a is not None and isinstance(a, ast.Name) and a.id == blk:
+            # the loop variable rebound to the rebuilt block: look at that binding
+            from sa.astutil import Resolver as _R5
+            defs_ = [n_.value for n_ in walk_local(ast.Module(body=L.ast.body, type_ignores=[])) if isinstance(n_, ast.Assign) and norm(n_.targets[0]) == blk]
+            if len(defs_) == 1:
+                a = defs_[0]
+            else:
+                continue
         if a is not None and norm(a) == blk:
-            f = facts.get(nd.id, frozenset())
-            ok = ("cmp", "ircfg.IRDst", "notin", blk) in f
-            ck.ob("R5", "_do_merge_blocks:kept-unchanged-only-without-IRDst", ok, m.where(nd.ast),
-                  "an assignment block is kept unchanged where it may still contain IRDst")
+            continue
         elif a is not None and isinstance(a, ast.Call) and (dotted(a.func) or "").endswith("AssignBlock"):
             src = a.args[0]
             if isinstance(src, ast.Name):
